@@ -1,15 +1,33 @@
-(* Correspondence for C07: programs over a register file of metric maps, executed by the real
-   MetricMap (Receive / Merge / MergeMaps) and by the model in the same order; the live
-   registers are compared at the end. *)
-From stdpp Require Import gmap.
-From GS Require Export Corr.MMLib.
+(* Correspondence for C07.
+   Stream 1 (C07): programs over a register file of metric maps, executed by the real MetricMap
+   (Receive / Merge / MergeMaps) and by the model in the same order (lock-step: the live
+   registers must be equal, field for field, except the VALUE of a gauge: which of two gauges
+   with equal timestamps wins is free, DESIGN 2.4); in addition every observed register must
+   satisfy the C07 projection of the leaves that flowed into it (counter totals, timer value
+   multisets, sampled counts, set members, newest timestamps, and a gauge value that is the
+   value of a leaf datapoint carrying the newest timestamp).
+   Stream 2 (C07Cons): batches pushed by concurrent goroutines through a real
+   MetricConsolidator (ReceiveMetrics / ReceiveMetricMap, concurrent Flush), all drained maps
+   merged by MergeMaps.  Which slot a batch landed in is not observable, so the result is
+   compared with the model merge of the batches in list order under the C07 projection
+   (C07_slots / C07_counters / C07_timers / C07_sets / C07_timestamps / C07_gauges say the
+   projection does not depend on the assignment). *)
+From stdpp Require Import gmap sorting.
+From Coq Require Import QArith Qcanon.
+From GS Require Export Corr.MMLib Model.Content.
 
 Inductive op :=
 | ORecv (r : nat) (d : datapoint)
 | OMerge (into from : nat)             (* regs[into].Merge(regs[from]); regs[from] is dead afterwards *)
 | OMergeMaps (dst : nat) (srcs : list nat). (* regs[dst] = MergeMaps(srcs); the sources are dead *)
 
-Record c07case := C07 { c_nregs : nat; c_prog : list op; c_obs : list (nat * list entry) }.
+Inductive batch :=
+| BMap (ds : list datapoint)       (* a map built by Receive, handed to ReceiveMetricMap *)
+| BMetrics (ds : list datapoint).  (* a slice handed to ReceiveMetrics *)
+
+Inductive c07case :=
+| C07 (nregs : nat) (prog : list op) (obs : list (nat * list entry))
+| C07Cons (batches : list batch) (obs : list entry).
 
 Definition reg (rs : list mmap) (i : nat) : mmap := nth i rs empty_map.
 Fixpoint set_reg (rs : list mmap) (i : nat) (m : mmap) : list mmap :=
@@ -28,10 +46,88 @@ Definition exec (rs : list mmap) (o : op) : list mmap :=
 
 Definition run_prog (n : nat) (p : list op) : list mmap := fold_left exec p (repeat empty_map n).
 
-Definition check_case (c : c07case) : bool :=
-  let rs := run_prog (c_nregs c) (c_prog c) in
-  forallb (fun '(i, es) => dump_matches es (reg rs i)) (c_obs c).
+(* ---- the C07 projection: an observed dump [es] against the model map [m] of the same
+   batches merged in some order, [ls] being the leaves ---- *)
+Definition zsort (l : list Z) : list Z := merge_sort Z.le l.
+Definition qc_eqb (a b : Qc) : bool := Qeq_bool (this a) (this b).
 
-Definition explain_case (c : c07case) : list (nat * list entry) :=
-  let rs := run_prog (c_nregs c) (c_prog c) in
-  map (fun '(i, _) => (i, entries (reg rs i))) (c_obs c).
+Definition gauge_candidate (ls : list mmap) (k : skey) (ts v : Z) : bool :=
+  existsb (λ l, match gauges l !! k with
+                | Some g => (g_ts g =? ts)%Z && (g_val g =? v)%Z
+                | None => false end) ls.
+
+Definition entry_projects (ls : list mmap) (m : mmap) (e : entry) : bool :=
+  match e with
+  | EC n k v ts _ _ =>
+      match counters m !! (n, k) with Some c => (c_val c =? v)%Z && (c_ts c =? ts)%Z | None => false end
+  | EG n k v ts _ _ =>
+      match gauges m !! (n, k) with Some g => (g_ts g =? ts)%Z && gauge_candidate ls (n, k) ts v | None => false end
+  | ET n k vs sn sd ts _ _ =>
+      match timers m !! (n, k) with
+      | Some t => zlist_eqb (zsort vs) (zsort (t_vals t)) && qc_eqb (Q2Qc (Qmake sn sd)) (t_samp t) && (t_ts t =? ts)%Z
+      | None => false end
+  | ES n k ms ts _ _ =>
+      match sets m !! (n, k) with
+      | Some s => strs_eqb (elements (list_to_set ms : gset str)) (elements (s_vals s)) && (s_ts s =? ts)%Z
+      | None => false end
+  end.
+
+Definition projects (ls : list mmap) (m : mmap) (es : list entry) : bool :=
+  (length es =? length (entries m))%nat && forallb (entry_projects ls m) es.
+
+Definition batch_leaves (b : batch) : list mmap :=
+  match b with
+  | BMap ds => [receive_all empty_map ds]
+  | BMetrics ds => singleton <$> ds
+  end.
+
+(* stream 1: the leaves that flowed into each register (provenance), for ANY program: every
+   received datapoint is a leaf; a merge concatenates the provenance *)
+Definition lreg (ls : list (list mmap)) (i : nat) : list mmap := nth i ls [].
+Fixpoint set_lreg (ls : list (list mmap)) (i : nat) (x : list mmap) : list (list mmap) :=
+  match ls, i with
+  | [], _ => []
+  | _ :: r, O => x :: r
+  | y :: r, S i' => y :: set_lreg r i' x
+  end.
+Definition exec_leaves (ls : list (list mmap)) (o : op) : list (list mmap) :=
+  match o with
+  | ORecv r d => set_lreg ls r (lreg ls r ++ [singleton d])
+  | OMerge i f => set_lreg ls i (lreg ls i ++ lreg ls f)
+  | OMergeMaps d srcs => set_lreg ls d (concat (map (lreg ls) srcs))
+  end.
+Definition run_leaves (n : nat) (p : list op) : list (list mmap) := fold_left exec_leaves p (repeat [] n).
+
+(* lock-step comparison modulo gauge values *)
+Definition erase_gv_entry (e : entry) : entry :=
+  match e with EG n k _ ts s tg => EG n k 0 ts s tg | _ => e end.
+Definition erase_gv (m : mmap) : mmap :=
+  MkMap (counters m) (timers m) ((λ g, MkGauge 0 (g_ts g) (g_src g) (g_tags g)) <$> gauges m) (sets m).
+Definition lockstep_matches (es : list entry) (m : mmap) : bool :=
+  dump_matches (erase_gv_entry <$> es) (erase_gv m).
+
+Definition check_case (c : c07case) : bool :=
+  match c with
+  | C07 n p obs =>
+      let rs := run_prog n p in
+      let ls := run_leaves n p in
+      forallb (fun '(i, es) => lockstep_matches es (reg rs i)) obs
+      && forallb (fun '(i, es) => projects (lreg ls i) (merge_maps (lreg ls i)) es) obs
+  | C07Cons bs es =>
+      let ls := concat (batch_leaves <$> bs) in
+      projects ls (merge_maps ls) es
+  end.
+
+Inductive explained :=
+| XRegs (rs : list (nat * list entry))
+| XMerged (es : list entry).
+
+Definition explain_case (c : c07case) : explained :=
+  match c with
+  | C07 n p obs =>
+      let rs := run_prog n p in
+      if forallb (fun '(i, es) => lockstep_matches es (reg rs i)) obs
+      then XMerged (flat_map (fun '(i, _) => entries (merge_maps (lreg (run_leaves n p) i))) obs)
+      else XRegs (map (fun '(i, _) => (i, entries (reg rs i))) obs)
+  | C07Cons bs _ => XMerged (entries (merge_maps (concat (batch_leaves <$> bs))))
+  end.
